@@ -17,8 +17,8 @@ Conventions
   the `i`-th counted request since the last `failfrom` is granted iff
   `oracle i`; a granted request on a `PROT_NONE` page fails in the kernel but
   leaves the pages marked locked (Linux: `VM_LOCKED` is set before the
-  population fails) – this is what the real harness shows for `lock` on a
-  non-empty `NoAccess` region.
+  population fails); the repaired `dryoc_mlock` therefore calls `munlock` on
+  its failure path (`Cfg.undo`, `false` only in the counter-model).
 -/
 namespace DryocVerif.Model.Protected
 
@@ -29,6 +29,10 @@ structure Cfg where
   isArr : Bool := false
   n : Nat := 0
   wipe : Bool := true
+  /-- `dryoc_mlock` calls `munlock` on its failure path (the repaired code); `false` only in the
+  counter-model documenting the repaired defect (a failed `mlock(2)` on `PROT_NONE` pages used to
+  leave them flagged locked for ever) -/
+  undo : Bool := true
 
 /-! ## abstract kernel -/
 
@@ -95,13 +99,19 @@ def Mach.init (oracle : Nat → Bool) : Mach := ⟨Kernel.init, 0, oracle, []⟩
 
 def failOracle (K : Int) : Nat → Bool := fun i => !(decide (1 ≤ K) && decide (K ≤ (i : Int)))
 
-/-- `dryoc_mlock(data)` -/
+/-- failure path of `dryoc_mlock`: the repaired code calls `munlock` on the range -/
+def failedLock (c : Cfg) (m : Mach) (k : Kernel) (addr len : Nat) : Mach :=
+  { m with k := if c.undo then munlockK c.P k addr len else k, cnt := m.cnt + 1 }
+
+/-- `dryoc_mlock(data)`: a refused request never reaches the kernel; a granted one may still
+fail there (`PROT_NONE`); in both cases the failure path unlocks the range again -/
 def dryocMlock (c : Cfg) (m : Mach) (addr len : Nat) : Mach × Bool :=
   if len = 0 then (m, true)
   else if m.oracle (m.cnt + 1) then
     let r := mlockK c.P m.k addr len
-    ({ m with k := r.1, cnt := m.cnt + 1 }, r.2)
-  else ({ m with cnt := m.cnt + 1 }, false)
+    if r.2 then ({ m with k := r.1, cnt := m.cnt + 1 }, true)
+    else (failedLock c m r.1 addr len, false)
+  else (failedLock c m m.k addr len, false)
 
 /-- `dryoc_munlock(data)` -/
 def dryocMunlock (c : Cfg) (m : Mach) (addr len : Nat) : Mach :=
